@@ -792,3 +792,37 @@ package server
 //@   at call StoreEntities#1 before
 //@     assume (forall i int :: 0 <= i && i < len(deleteBatch) ==> deleteBatch[i] != nil) && (ds.fullSyncStarted ==> ds.fullSyncSeen != nil)
 //@   ensures [sync-state-reset-on-every-exit] !ds.fullSyncStarted && ds.fullSyncID == "" && ds.fullSyncLease == nil && ds.fullSyncSeen != nil && (forall k uint64 :: !has(ds.fullSyncSeen, k))
+
+// ---------------------------------------------------------------------------
+// C03 / C06 / C07: relationship scan (outgoing direction): every result passed the scope, deleted-dataset, time and
+// predicate filters and is a live key; the scan of every page starts at the top of the start entity's key range (the
+// seen-set is rebuilt from there); the continuation pins the instant and the query
+
+//@ unit (*Store).GetRelatedAtTime
+//@   prop C03 C06 C07
+//@   requires s != nil
+//@   requires [index-of-the-direction] from != nil ==> encBE16(from.RelationIndexFromKey, 0) == (from.Inverse ? 2 : 3)
+//@   requires-inv [existing-objects] foreign(s.deletedDatasets)
+//@   requires-inv [start-key-is-a-whole-buffer] from != nil ==> offOf(from.RelationIndexFromKey) == 0 && foreign(from.RelationIndexFromKey)
+//@   ensures [C06:continuation-pins-the-instant-and-the-query] ret2 == nil && ret1 != nil ==> ret1.At == from.At && ret1.Predicate == from.Predicate && ret1.Inverse == from.Inverse && ret1.Datasets == from.Datasets
+//@   ensures [C03:outgoing-page-respects-the-limit] ret2 == nil && !from.Inverse && limit > 0 ==> len(ret0) <= limit
+//@   safe slice
+//@   at $1 call Seek#2 before
+//@     assert [C03:every-page-rescans-from-the-newest-key-of-the-start-entity] len(key) == 11 && key[10] == 255 && arrOf(key) == arrOf(reverseFrom) && encBE16(key, 0) == encBE16(from.RelationIndexFromKey, 0) && encBE64(key, 2) == encBE64(from.RelationIndexFromKey, 2)
+//@   at $1 call append#5 before
+//@     assert [C07:result-dataset-not-deleted] !(has(s.deletedDatasets, datasetID) && s.deletedDatasets[datasetID])
+//@     assert [C03:result-dataset-in-scope] len(from.Datasets) == 0 || (exists k int :: 0 <= k && k < len(from.Datasets) && from.Datasets[k] == datasetID)
+//@     assert [C06:result-not-recorded-after-the-requested-instant] et <= from.At
+//@     assert [C03:result-matches-the-requested-predicate] from.Predicate == 0 || from.Predicate == predID
+//@     assert [C03:result-is-a-live-key-of-the-scanned-entry] del != 1 && encBE16(k, 34) == del && encBE64(k, 26) == relatedID && encBE64(k, 18) == predID && encBE32(k, 36) == datasetID && encBE64(k, 10) == et
+//@   loop $1:1
+//@     invariant encBE16(searchBuffer, 0) == 2 && len(searchBuffer) == 10 && $itPlen[outgoingIterator] == 10
+//@   loop $1:6
+//@     invariant encBE16(searchBuffer, 0) == 3 && len(searchBuffer) == 10 && $itPlen[outgoingIterator] == 10
+//@     invariant limit == 0 || len(results) <= limit || limit < 0
+//@     invariant seenIds != nil && added != nil && !foreign(seenIds) && !foreign(added)
+//@     invariant forall p uint64 :: has(seenIds, p) ==> seenIds[p] != nil && !foreign(seenIds[p]) && has(added, p) && added[p] != nil && !foreign(added[p])
+//@     invariant forall p uint64, r uint64 :: has(seenIds, p) && has(seenIds[p], r) ==> seenIds[p][r] != nil && !foreign(seenIds[p][r])
+//@   loop $1:7
+//@     invariant -1 <= $i && $i < len(from.Datasets)
+//@     invariant datasetIncluded <==> (len(from.Datasets) == 0 || (exists k int :: 0 <= k && k <= $i && from.Datasets[k] == datasetID))
